@@ -80,6 +80,8 @@ def aggregated_semantics(check: Check, want: tuple[str, ...] = ("P7", "W-grp", "
                         got: Any = ex.invoke(fns["P7"], [agg, x], {}, E0)
                     except Raised as r:
                         got = ("raises", r.cls)
+                    except Internal as i_:
+                        got = ("raises", i_.cls)  # an internal error (None has no compute) is an outcome too
                     if seq and not with_agg:
                         if got != ("raises", "ValueError"):
                             bad.setdefault(("P7", "no-operator"), f"{label}: membership(x) must raise ValueError, got {got}")
